@@ -46,8 +46,8 @@ Fixpoint repl (pat rep : str) (skip : nat) (s : str) : str :=
   end.
 Definition py_replace (pat rep s : str) : str := repl pat rep 0 s.
 
-Definition q : ascii := "'".          (* the single quote *)
-Definition sp : ascii := " ".
+Notation q := "'"%char (only parsing).          (* the single quote *)
+Notation sp := " "%char (only parsing).
 
 (* the four replace calls of load_subs (simplifier.py), in the code's order *)
 Definition requote (s : str) : str :=
@@ -258,7 +258,7 @@ Inductive tmpl :=
 | TNeg (i : nat)                         (* {ai: -ai} *)
 | TInv (i : nat)                         (* {ai: 1/ai} *)
 | TScale (i : nat) (neg : bool) (n d : nat)   (* {ai: [-][n*]ai[/d]}, (n,d) <> (1,1) *)
-| TRoot (i : nat) (neg : bool) (m : nat)      (* {ai: ai**(1/m)} / {ai: ai**(-1/m)}, m >= 2 *)
+| TRoot (i : nat) (neg : bool) (m : nat)      (* {ai: ai**(1/m)} / {ai: ai**(-1/m)}, m >= 3 odd *)
 | TAbsRoot (i : nat) (neg : bool) (m : nat)   (* {ai: Abs(ai)**(+-1/m)}: Abs(ai), 1/Abs(ai), sqrt(Abs(ai)), 1/sqrt(Abs(ai)), ... *)
 | TAbsRootSign (i : nat) (neg : bool) (m : nat) (* {ai: Abs(ai)**(1/m)*sign(ai)} / {ai: sign(ai)/Abs(ai)**(1/m)}, m >= 2 *)
 | TIntPow (i : nat) (n : nat)            (* {ai: ai**n}, n >= 2 *)
@@ -348,7 +348,7 @@ Definition family (np nmax : nat) : list tmpl :=
     flat_map (fun neg => flat_map (fun n => flat_map (fun d =>
        if coprime n d && negb ((n =? 1) && (d =? 1)) then [TScale i neg n d] else [])
        (range1 nmax)) (range1 nmax)) bools ++
-    flat_map (fun neg => map (TRoot i neg) (range2 (S nmax))) bools ++
+    flat_map (fun neg => map (TRoot i neg) (filter Nat.odd (range2 (S nmax)))) bools ++
     flat_map (fun neg => map (TAbsRoot i neg) (range1 (S nmax))) bools ++
     flat_map (fun neg => map (TAbsRootSign i neg) (range2 (S nmax))) bools ++
     map (TIntPow i) (range2 nmax))
